@@ -4,6 +4,7 @@ import (
 	"context"
 	"fmt"
 	"math/rand"
+	"os"
 	"strings"
 	"sync/atomic"
 
@@ -264,6 +265,10 @@ func c17Ops(c *rig.Ctx) {
 	opsPerDoc := c.Pick(10, 18)
 	var indexed, fellBack, inMemByDesign, multiChunkOps, reindexed, refPanics int
 	for d := 0; d < nDocs; d++ {
+		// replay aid: VERIF_C17_ONLY_DOC=<n> runs the single chain c17/doc/<n> (documents are generated independently)
+		if v := os.Getenv("VERIF_C17_ONLY_DOC"); v != "" && v != fmt.Sprint(d) {
+			continue
+		}
 		r := c.SubRand("c17/doc", d)
 		g := &jgen{r: r, escKeys: r.Intn(3) == 0}
 		var doc any
